@@ -93,7 +93,7 @@ inductive Derives (cfg : Cfg) : G → Nat → Node → Prop
   | name {g nm pos x} : Derives cfg g pos x → Derives cfg (.name g nm) pos x
   | suppress {g pos x} : Derives cfg g pos x → Derives cfg (.suppress g) pos x
   | singleUnwrap {g pos tk c p r i} : Derives cfg g pos (.nt tk [c] p r i) → Derives cfg (.single g) pos c
-  | singleKeep {g pos x} : Derives cfg g pos x → (∀ tk c p r i, x ≠ .nt tk [c] p r i) → Derives cfg (.single g) pos x
+  | singleKeep {g pos x} : Derives cfg g pos x → Derives cfg (.single g) pos x
   | seqfam {g sh pos nodes} : g.shape = some sh → DerivesSeq cfg sh 0 pos nodes →
       sh.lenCheck nodes.length = true → Derives cfg g pos (handleResult sh pos nodes)
 /-- elements `d, d+1, …` of a Sequence-family parser derive `nodes` one after the other from `pos` -/
